@@ -778,6 +778,7 @@ pub fn run(ctx: &mut Ctx) {
         "rows reported by the bitpacked range lookup = rows predicted by the model of transform_range_before_linear_transformation (guard re-extracted)".into(),
         "column index + values of real columnar files cross-decoded by the model (cardinality, optional index, start offsets, values)".into(),
         "merge row mapping: read(model mergeShuffled / mergeStacked) = real merged column rows".into(),
+        "model decode of real compact-space (IP) column bytes = indexed u128 values; footer min/max equal".into(),
         "cardinality of every written column = the model of ColumnWriter (op log, delta_with_last_doc); model writer reads back its rows".into(),
     ];
     if let Some(case) = ctx.replay.clone() {
